@@ -504,7 +504,7 @@ def c06_7(ctx: Ctx):
 # ----------------------------------------------------------------------------
 
 
-@rule("C12.8", ["C12", "C08", "C13", "C05"], "assembler bookkeeping: merged-block CFI is prepended, indexes are updated before they are cleared, state is re-created faithfully", 8)
+@rule("C12.8", ["C12", "C08", "C13", "C05", "C02"], "assembler bookkeeping: merged-block CFI is prepended, indexes are updated before they are cleared, state is re-created faithfully", 8)
 def c12_8(ctx: Ctx):
     repo = ctx.repo
     A = "assembler.assembler.Assembler."
